@@ -28,6 +28,38 @@ type Impl struct {
 	Dir string
 	S   *replica.Server
 	BS  int // units per block (8)
+	// rebuild: the other replica of the pair (the target before the swap, the source after it)
+	Peer     *replica.Server
+	PeerDir  string
+	rb       *rebuild
+	alias    map[string]string // name used on the line -> name the controller generated
+	cleanups []string
+}
+
+// Rebuilding reports whether a controller is attached (between rbbegin and rbend).
+func (im *Impl) Rebuilding() bool { return im.rb != nil }
+
+// Swapped reports whether the rebuilt replica has become the replica under test.
+func (im *Impl) Swapped() bool { return im.rb != nil && im.rb.swapped }
+
+// Cleanup removes the directories of replicas created for rebuilds.
+func (im *Impl) Cleanup() {
+	if im.rb != nil {
+		im.rbEnd()
+	}
+	for _, d := range im.cleanups {
+		os.RemoveAll(d)
+		os.RemoveAll(d + ".copy")
+	}
+}
+
+func cpSparse(src, dst string) error {
+	os.Remove(dst)
+	out, err := exec.Command("cp", "--sparse=always", "--preserve=mode", src, dst).CombinedOutput()
+	if err != nil {
+		return fmt.Errorf("cp %s: %v %s", src, err, out)
+	}
+	return nil
 }
 
 type foldOps struct{}
@@ -119,10 +151,19 @@ func (im *Impl) Exec(line string) (out string) {
 		if p := recover(); p != nil {
 			out = fmt.Sprintf("panic %v", p)
 		}
+		out = im.unalias(out)
 	}()
 	w := strings.Fields(line)
 	if len(w) == 0 {
 		return ""
+	}
+	if im.rb != nil && !im.rbAllows(w[0]) {
+		return "inadmissible"
+	}
+	if w[0] != "rbbegin" {
+		for i := 1; i < len(w); i++ {
+			w[i] = im.real(w[i])
+		}
 	}
 	atoi := func(s string) int { n, _ := strconv.Atoi(s); return n }
 	switch w[0] {
@@ -146,6 +187,9 @@ func (im *Impl) Exec(line string) (out string) {
 		off, n, tag := atoi(w[1]), atoi(w[2]), atoi(w[3])
 		if im.rep() == nil || off+n > im.nbUnits() {
 			return "refused"
+		}
+		if im.rb != nil {
+			return im.rbWrite(off, n, tag)
 		}
 		_, err := im.S.WriteAt(Payload(off, n, tag), int64(off*Unit))
 		return res(err)
@@ -293,6 +337,19 @@ func (im *Impl) Exec(line string) (out string) {
 		return res(im.S.SetRevisionCounter(int64(atoi(w[1]))))
 	case "ckpt":
 		return res(im.S.SetCheckpoint(w[1]))
+	case "rbbegin":
+		return im.rbBegin(w[1])
+	case "rbreload":
+		return im.rbReload()
+	case "lunmap":
+		if im.rep() == nil {
+			return "refused"
+		}
+		return res(im.S.UpdateLUNMap())
+	case "rbpromote":
+		return im.rbPromote()
+	case "rbend":
+		return im.rbEnd()
 	case "holes":
 		set := map[[2]int]bool{}
 		for _, h := range im.Pending() {
@@ -401,7 +458,7 @@ func (im *Impl) cands(ck string) string {
 	}
 	var ns []string
 	for _, n := range l {
-		ns = append(ns, strings.TrimSuffix(strings.TrimPrefix(n, "volume-snap-"), ".img"))
+		ns = append(ns, im.unalias(strings.TrimSuffix(strings.TrimPrefix(n, "volume-snap-"), ".img")))
 	}
 	sort.Strings(ns)
 	return "cands " + strings.Join(ns, ",")
